@@ -897,4 +897,11 @@ theorem renew_accepted {j : Mon} {k : Nat} {cb to : Option Str} {a : Option Nat}
           simp [Mon.onResp, hs, ha, List.getElem?_modify_eq]
         · simp [Mon.onResp, hs, ha, hk, fail] at hok
 
+theorem ok_prefix {ev : List Bool} {rate : List Nat} {dflt : List (Option Val)} {pre rest : List Item}
+    (h : ok ev rate dflt (pre ++ rest) = true) :
+    (rest.foldl Mon.step (pre.foldl Mon.step (Mon.init ev rate dflt))).ok = true := by
+  unfold ok at h
+  have := close_ok_mono _ h
+  rwa [List.foldl_append] at this
+
 end Upnp.C15
